@@ -114,7 +114,37 @@ def op_flux(rng):
     return "flux %s %d %s %s %s %s %s" % (b(g), i, b(dx), b(A), b(dt), " ".join(b(x) for x in L), " ".join(b(x) for x in R)), kind
 
 
+def op_gflux_wall(rng):
+    """gas running into (or away from) a reflecting wall at a chosen Mach number: dense in (0, 1.5), the range in
+    which the property promises that nothing passes the wall, a few above as controls, some receding"""
+    g = rng.choice(GAMMAS) if rng.random() < 0.8 else rng.uniform(1.01, 2.0)
+    i = rng.randrange(3)
+    dx = logu(rng, -3, 3)
+    A = dx * dx * rng.choice([1.0, 0.5, 2.0])
+    vol = A * dx
+    rho, P = logu(rng, -28, 2), logu(rng, -22, 5)
+    cs = math.sqrt(g * P / rho)
+    r = rng.random()
+    mach = rng.uniform(0.0, 1.5) if r < 0.7 else (rng.uniform(1.15, 1.449) if r < 0.85 else (rng.uniform(1.5, 5.0) if r < 0.93 else -rng.uniform(0.0, 6.0)))
+    sgn = rng.choice([1.0, -1.0])
+    v = [rng.gauss(0, 1) * cs * rng.choice([0.0, 0.3, 3.0]) for _ in range(3)]
+    v[i] = sgn * mach * cs
+    L = [rho] + v + [P]
+    mode = rng.choice(["zero", "zero", "small", "wild"])
+    G = []
+    for j in range(5):
+        for c in range(3):
+            G.append(0.0 if mode == "zero" else rng.uniform(-1, 1) * (abs(L[j]) + (cs if 1 <= j <= 3 else 0.0)) / dx * (0.1 if mode == "small" else 2.0))
+    cons = consistent_cons(L, vol, g)
+    dt = 0.2 * dx / (cs * (1 + abs(mach))) * rng.choice([1.0, 1.0, 0.01, 30.0])
+    cell = L + G + cons + [0.0] * 5
+    kind = "wall-receding" if mach < 0 else "wall-M<1.15" if mach < 1.15 else ("wall-M1.15-1.45" if mach < 1.45 else ("wall-M1.45-1.5" if mach < 1.5 else ("wall-M>1.5" if mach > 0 else "wall-receding")))
+    return "gflux %s %d %s %s %s %s" % (b(g), i, b(sgn * dx), b(A), b(dt), " ".join(b(x) for x in cell)), kind
+
+
 def op_gflux(rng):
+    if rng.random() < 0.6:
+        return op_gflux_wall(rng)
     g, i, dx, A, dt, L, R, kind = gen_cell_pair(rng)
     if L[0] == 0.0 and rng.random() < 0.7:
         L = R
@@ -209,7 +239,7 @@ def op_uprim(rng):
 
 def cell_ops(ctx, n):
     ops = []
-    gens = [(op_flux, 0.34), (op_gflux, 0.12), (lambda r: op_grad(r, False), 0.1), (lambda r: op_grad(r, True), 0.06),
+    gens = [(op_flux, 0.30), (op_gflux, 0.16), (lambda r: op_grad(r, False), 0.1), (lambda r: op_grad(r, True), 0.06),
             (op_lim, 0.14), (op_ucons, 0.12), (op_uprim, 0.12)]
     for _ in range(n):
         x = ctx.rng.random()
@@ -304,6 +334,10 @@ def initial_state(rng, ncell, kind, g, per):
     cut = [rng.randrange(1, max(2, ncell[a])) for a in range(3)]
     jump_ax = rng.randrange(3)
     vdrift = [rng.gauss(0, 0.3) * cs0 if per[a] else 0.0 for a in range(3)]
+    walls = [a for a in range(3) if not per[a]]
+    if kind == "wallflow" and not walls:
+        kind = "smooth"
+    wf_ax, wf_sign, wf_mach = (rng.choice(walls) if walls else 0), rng.choice([1, -1]), rng.uniform(1.0, 1.37)
     for X in itertools.product(range(ncell[0]), range(ncell[1]), range(ncell[2])):
         s = sum(math.sin(2 * math.pi * k[a] * (X[a] + 0.5) / ncell[a] + ph[a]) for a in range(3)) / 3.
         if kind == "smooth":
@@ -323,6 +357,10 @@ def initial_state(rng, ncell, kind, g, per):
         elif kind == "random":
             n, T = 10 ** rng.uniform(-2, 1), 10 ** rng.uniform(1.5, 3)
             v = [rng.gauss(0, 0.5) * cs0 for _ in range(3)]
+        elif kind == "wallflow":
+            # uniform gas running into one reflecting wall at Mach 1.0 .. 1.37 (below the 1.5 of the property)
+            n, T = 1.0, 100.
+            v = [wf_sign * wf_mach * cs0 if a == wf_ax else 0.0 for a in range(3)]
         elif kind == "supersonic":
             n, T = 1.0 + 0.2 * s, 100.
             v = [rng.choice([-1, 1]) * 3.0 * cs0 * (1 + 0.3 * s) if a == jump_ax else 0.0 for a in range(3)]
@@ -576,7 +614,7 @@ def physical_oracle(t1, dump1=None):
 
 # ------------------------------------------------------------------ one real run, all checks
 PERS = [(True, True, True), (True, True, True), (False, False, False), (True, False, True), (False, True, True), (True, True, False), (False, False, True)]
-KINDS = ["smooth", "jump", "blast", "nearvac", "random", "supersonic", "smooth", "random"]
+KINDS = ["smooth", "jump", "blast", "nearvac", "random", "supersonic", "smooth", "random", "wallflow", "wallflow"]
 
 
 def pick_config(ctx, max_cells):
@@ -597,6 +635,8 @@ def pick_config(ctx, max_cells):
     # the code's default CFL factor (0.2), close to the stability limit, and deliberately overdriven steps: conservation
     # holds for every dt as long as no clamp fires, and the clamps must keep the state non-negative for every dt
     cfl = rng.choice([None] * 6 + [0.9, 2.5, 6.0])
+    if kind == "wallflow":
+        cfl = 0.05          # small half-step prediction: the bound on the reconstructed wall Mach number stays tight
     return dict(layout=layout, cells=cells, per=per, g=g, kind=kind, threads=threads, box=box, cfl=cfl)
 
 
@@ -620,22 +660,58 @@ def python_grid_faces(ncell, per):
     return exp
 
 
-def wall_mach(dump0, coords, ncell, per, g):
-    """largest (velocity towards an adjacent wall) / (sound speed) over the wall cells, before the step"""
+def wall_mach(dump0, coords, ncell, per, g, dt=None, box=(1., 1., 1.)):
+    """upper bound, over all cells next to a reflecting wall, of (reconstructed velocity towards the wall) / (sound speed)
+    at the wall face, computed from the state BEFORE the step:
+      * the slope limiter keeps the extrapolated face value within half the largest difference to a face neighbour
+        (ghost cell included), and Hydro::limit never raises it above the extrapolated value (or 0),
+        so  v_face <= max over the cell and its face neighbours of the wall-ward velocity  +  |dv| of the prediction;
+      * the half-step prediction changes v by at most dt/2 (|v_n| div v + |grad P| / rho) and rho, P by the relative
+        amount eps = dt/2 (gamma div v + sum |v| |grad ln(rho, P)|), with every derivative bounded by the largest
+        neighbour difference / dx (central differences, limited afterwards).
+    Returns 9.9 when no bound can be given (eps too large, vacuum next to the wall)."""
+    if dt is None:
+        return 9.9
+    dxs = [box[a] / ncell[a] for a in range(3)]
+    prim = {coords[key]: [vlib.bits2f(x) for x in rec[8:13]] for key, rec in dump0.items()}
     worst = 0.0
-    for key, rec in dump0.items():
-        X = coords[key]
-        prim = [vlib.bits2f(x) for x in rec[8:13]]
-        if not (prim[0] > 0 and prim[4] > 0):
+    for X, W in prim.items():
+        sides = [(ax, s) for ax in range(3) if not per[ax] for s in (1, -1) if (X[ax] == ncell[ax] - 1 if s == 1 else X[ax] == 0)]
+        if not sides:
             continue
-        cs = math.sqrt(g * prim[4] / prim[0])
+        if not (W[0] > 0 and W[4] > 0):
+            return 9.9
+        nb = []           # (axis, neighbour primitives), ghost cells included
         for ax in range(3):
-            if per[ax]:
-                continue
-            if X[ax] == ncell[ax] - 1:
-                worst = max(worst, prim[1 + ax] / cs)
-            if X[ax] == 0:
-                worst = max(worst, -prim[1 + ax] / cs)
+            for s in (1, -1):
+                Y = list(X)
+                Y[ax] += s
+                if 0 <= Y[ax] < ncell[ax]:
+                    nb.append((ax, prim[tuple(Y)]))
+                elif per[ax]:
+                    Y[ax] %= ncell[ax]
+                    nb.append((ax, prim[tuple(Y)]))
+                else:
+                    G = list(W)
+                    G[1 + ax] = -G[1 + ax]
+                    nb.append((ax, G))
+        cs = math.sqrt(g * W[4] / W[0])
+        # apply_slope_limiter scales the whole gradient vector of a variable by alpha = min(1, 0.5 min(maxfac, minfac))
+        # (negative at a local extremum); the extrapolations to the six faces are +-ext_k, so after limiting every one
+        # of them is at most 0.5 min(|max_nb - W|, |min_nb - W|) in magnitude (0 when W equals the largest or smallest
+        # neighbour value, ghost cells included): |d W_j / d x_k| <= md(j) / dx_k, sign unknown
+        md = lambda j: min(abs(max(N[j] for a2, N in nb) - W[j]), abs(min(N[j] for a2, N in nb) - W[j]))
+        divv = sum(md(1 + ax) / dxs[ax] for ax in range(3))
+        adv = sum(abs(W[1 + ax]) * max(md(0) / W[0], md(4) / W[4]) / dxs[ax] for ax in range(3))
+        eps = 0.5 * dt * (g * divv + adv)
+        if eps >= 0.5:
+            return 9.9
+        cs_pred = cs * math.sqrt((1 - eps) / (1 + eps))
+        for (ax, s) in sides:
+            vn = s * W[1 + ax] + 0.5 * md(1 + ax)
+            gradP = md(4) / dxs[ax]
+            dv = 0.5 * dt * (abs(W[1 + ax]) * divv + gradP / (W[0] * (1 - eps)))
+            worst = max(worst, (max(vn, 0.0) + dv) / cs_pred)
     return worst
 
 
@@ -707,10 +783,10 @@ def check_run(ctx, cfg, res, model, stream):
         walls_ok = True
         wm = 0.0
         if not all(per):
-            wm = wall_mach(step["dump"][0], coords, ncell, per, g) if (coords is not None and step["dump"][0]) else 9.9
-            # the per-face limiter may raise the normal velocity at the wall to twice the cell value and the half-step
-            # prediction changes the state by O(CFL): cell-centred Mach < 0.6 keeps the reconstructed one below 1.5
-            walls_ok = wm < 0.6
+            wm = wall_mach(step["dump"][0], coords, ncell, per, g, dt=t0["dt"], box=cfg["box"]) if (coords is not None and step["dump"][0]) else 9.9
+            # wm bounds the reconstructed wall Mach number from above (see wall_mach); the property promises
+            # conservation below 1.5
+            walls_ok = wm < 1.45
         ctx.branch("periodic-box" if all(per) else ("walls-subsonic" if walls_ok else "walls-supersonic"))
         clamp = t1["mins"][0] <= 0.0 or t1["mins"][1] <= 0.0
         ctx.branch("clamp-fired" if clamp else "no-clamp")
@@ -766,7 +842,7 @@ def run(ctx):
     ctx.assumptions += [
         "theorems are about exact real arithmetic; floating-point round-off is bounded empirically by the tolerances below",
         "totals_conserved: periodic box, no gravity / energy source term, no positivity clamp firing (the steps in which a clamp fires are excluded from the conservation oracle, as in the property statement)",
-        "reflective_no_mass_energy: reconstructed wall-normal velocity < 1.5 c_s (checked on runs whose cell-centred wall Mach number before the step is < 0.6)",
+        "reflective_no_mass_energy: reconstructed wall-normal velocity < 1.5 c_s (cell level: every generated wall state with reconstructed Mach < 1.45; runs: every step whose upper bound of the reconstructed wall Mach number, computed from the state before the step, is < 1.45)",
         "finiteness (NaN/Inf) is a floating-point notion: searched on the real runs and cell-level cases, not proved",
         "the CFL time step is the one the code chooses; the theorems hold for every dt",
         "the Riemann solver is uninterpreted in the conservation theorems (any flux function); only reflective walls use C05's HLLC model",
